@@ -8,7 +8,11 @@ import tempfile
 from harness.lib import hx, zl, cz, cbool, clist
 
 ID = 'C10'
-RULE = ('[also: 2..3-step programs = interval-producing operations (sorted, merged, clip, extended_to_size, [::-1], [mask], '
+RULE = ('[round 6: the run-length VIEW of genome-wide arrays — get_data() of pileup / mask / ~mask, GenomicIntervals.from_track, '
+        'from_bedgraph(get_data()) round trip, GenomicSequence[mask], GenomicArray[mask] — on every base scenario, on 1..5-chromosome genomes with a '
+        'coverage pattern per chromosome (none / full / head / tail / inner / both ends / doubly full: constant runs of the concatenated track that '
+        'span 0, 1, 2, 3 chromosome boundaries), and exhaustively on {2,1,2} x {none,full,head,tail}^3 and {1,1,1,1} x {none,full}^4] '
+        '[also: 2..3-step programs = interval-producing operations (sorted, merged, clip, extended_to_size, [::-1], [mask], '
         'get_location.get_windows) followed by a strand-aware consumer (array values, sequence, get_location) on stranded tables '
         'with - rows, on plain and with_ignored_added genomes] '
         'genomes of 1..4 chromosomes (sizes 1..S; names where one is a prefix of another; names with "_" under the '
@@ -25,7 +29,10 @@ TIE_DETAIL = ('translator: translate/gen_c10.py regenerates Gen/C10.v (41 defini
               'Bridge/C10.v proves them equal to the named helpers of Model/C10.v and the model functions equal to those '
               'helpers put together (theorem C10_source_tie); correspondence: the whole model evaluated in Coq on the same '
               'genome and entries as the public API')
-ASSUMPTIONS = ['single-contig kernels get_pileup / get_boolean_mask / merge_intervals are modelled by coverage counting '
+ASSUMPTIONS = ['run-length view (get_data / from_track / from_bedgraph round trip): the observed rows are compared after joining touching pieces of equal '
+               'value on the SAME chromosome (a GenomicRunLengthArray from get_pileup may hold one run in two pieces; the model lists maximal runs); '
+               'nothing is joined across chromosomes and the row order (genome order) is compared',
+               'single-contig kernels get_pileup / get_boolean_mask / merge_intervals are modelled by coverage counting '
                'and the running-maximum merge (their correctness is property C08); npstructures run-length arrays are '
                'read through to_array()',
                'intervals with start > stop are not generated (C10_model_ok_spec_ok assumes start <= stop); zero-length '
@@ -38,7 +45,9 @@ ASSUMPTIONS = ['single-contig kernels get_pileup / get_boolean_mask / merge_inte
                'the file made IndexedFasta raise KeyError before notes/C10.fix-5.diff, committed as d821780; flag FASTA_WITH_NEW_IGNORED = True)',
                'translator reading: element-wise NumPy expressions per element; np.any/np.all guards as per-element '
                'predicates; np.searchsorted as a call of the model function with the side passed on']
-PARTIAL = ['C10_strandedness_preserved / C10_prog_spec carry the hypothesis (extend_keeps_strand = true \\/ unstranded \\/ no extended_to_size step); '
+PARTIAL = ['OUnder (GenomicSequence[mask], GenomicArray[mask]: values at the True positions of a genome-wide mask) is compared with model and spec '
+           'case by case only: case_wf is False for it, C10_model_ok_spec_ok says nothing there (C10_runs_local covers the get_data rows it is built on)',
+           'C10_strandedness_preserved / C10_prog_spec carry the hypothesis (extend_keeps_strand = true \\/ unstranded \\/ no extended_to_size step); '
            'it is discharged for the code at HEAD: extended_to_size passes the strandedness flag on since 6e6bc4f (notes/C10.fix-6.diff committed), the '
            'model constant is extend_keeps_strand = true and stranded programs with an extended_to_size step are generated with every consumer '
            '(flag EXTEND_KEEPS_STRAND = True); C10_strandedness_lost_refuted is history about the code before that commit',
@@ -185,6 +194,7 @@ def _ops_for(rng, genome, filt, es, es_all, shuffled, locs, tier, added=()):
     for st in (0, 1):
         for w in (0, 1, 2):
             add(['location', st, w], shuffled)
+    _add_views(rng, add, shuffled, ext, vals)
     add(['windows', 'flank', rng.choice([0, 1, 2])], locs)
     add(['windows', 'size', rng.choice([1, 2, 3, 4, 5])], locs)
     add(['locsorted'], locs)
@@ -213,6 +223,102 @@ def _ops_for(rng, genome, filt, es, es_all, shuffled, locs, tier, added=()):
             if k == 0:
                 add(['seq', 0, 'dict'], small, seqs)
     return out
+
+
+VIEW_KINDS = ['pileup', 'mask', 'notmask']
+
+
+def _add_views(rng, add, entries, ext, vals, everything=False):
+    """the run-length view of the genome-wide arrays built from `entries`: get_data() of each kind, the routes that go
+    through it (from_track, from_bedgraph round trip, GenomicSequence[mask]) and GenomicArray[mask]"""
+    for kind in VIEW_KINDS:
+        add(['runs', kind, 'get_data'], entries)
+    extra = [['runs', 'mask', 'from_track'], ['runs', 'notmask', 'from_track'], ['runs', 'pileup', 'roundtrip']]
+    seqs = [[rng.choice(b'ACGT') for _ in range(s)] for n, s in ext]
+    under = [['under', neg, sq] for neg in (0, 1) for sq in (0, 1)]
+    if not everything:
+        extra = [rng.choice(extra)]
+        under = rng.sample(under, 2)
+    for op in extra:
+        add(op, entries)
+    for op in under:
+        add(op, entries, seqs if op[2] else vals)
+
+
+PATTERNS = ['none', 'none', 'full', 'full', 'head', 'tail', 'inner', 'ends', 'full2', 'random']
+
+
+def _pattern(rng, size, pat):
+    if pat == 'none':
+        return []
+    if pat == 'full':
+        return [(0, size)]
+    if pat == 'full2':
+        return [(0, size), (0, size)]
+    if pat == 'head':
+        return [(0, rng.randint(1, max(1, size - 1)))]
+    if pat == 'tail':
+        return [(rng.randint(min(1, size - 1), size - 1), size)]
+    if pat == 'inner':
+        if size < 3:
+            return []
+        a = rng.randint(1, size - 2)
+        return [(a, rng.randint(a + 1, size - 1))]
+    if pat == 'ends':
+        if size < 2:
+            return [(0, size)]
+        a = rng.randint(1, size - 1)
+        return [(0, a), (rng.randint(a, size - 1), size)]
+    a = rng.randrange(size)
+    return [(a, rng.randint(a + 1, size))]
+
+
+def _view_cases(genome, filt, added, per_chrom, rng, everything=True):
+    ext = _ext(genome, added)
+    es = [[i, a, b, 1] for i, ivs in sorted(per_chrom.items()) for a, b in ivs]
+    vals = [[(i + 1) * 10 + p for p in range(s)] for i, (n, s) in enumerate(ext)]
+    out = []
+
+    def add(op, entries, vals_=None):
+        out.append(dict(genome=genome, filter=filt, added=added, entries=entries, vals=vals_, op=op))
+    _add_views(rng, add, es, ext, vals, everything)
+    return out
+
+
+def _view_scenarios(rng, S, tier):
+    """constant runs of the concatenated track across 0..3 chromosome boundaries: 1..5 chromosomes, one coverage pattern
+    per chromosome (first / middle / last chromosome empty or covered completely, neighbours agreeing or not at the
+    shared end), sizes 1..S"""
+    cases = []
+    for k in range(36 if tier == 'quick' else 160):
+        pool = rng.choice(NAME_POOLS)
+        n = rng.choice([1, 2, 3, 3, 3, 4, 4, 4, 5])
+        names = rng.sample(pool, n)
+        filt = rng.choice(['keep', 'keep', 'us'])
+        genome = [[nm, rng.choice([1, 1, 2, 3, S, rng.randint(1, S)])] for nm in names]
+        if not _included(genome, filt):
+            continue
+        added = _gen_added(rng, genome, filt) if rng.random() < 0.25 else []
+        inc = _included(genome, filt, added)
+        per = {i: _pattern(rng, genome[i][1], rng.choice(PATTERNS)) for i in inc}
+        cases += _view_cases(genome, filt, added, per, rng, everything=(k % 3 == 0))
+    return cases
+
+
+def _view_exhaustive(tier):
+    rng = random.Random(1010)
+    cases = []
+    grids = [([2, 1, 2], ['none', 'full', 'head', 'tail']), ([1, 1, 1, 1], ['none', 'full'])]
+    if tier != 'quick':
+        grids.append(([2, 3, 1, 2], ['none', 'full', 'tail']))
+    for sizes, pats in grids:
+        genome = [[nm, sz] for nm, sz in zip(['chr1', 'chr10', 'chr2', 'chr11'], sizes)]
+        for combo in itertools.product(pats, repeat=len(sizes)):
+            per = {i: _pattern(rng, sizes[i], pat) for i, pat in enumerate(combo)}
+            es = [[i, a, b, 1] for i, ivs in sorted(per.items()) for a, b in ivs]
+            for kind in VIEW_KINDS:
+                cases.append(dict(genome=genome, filter='keep', added=[], entries=es, vals=None, op=['runs', kind, 'get_data']))
+    return cases
 
 
 def _sim(ext, inc, stranded, entries, steps):
@@ -356,7 +462,7 @@ def _scenario(rng, S, tier, bad=False):
         bes = sorted(es + [e], key=lambda x: (x[0], x[1], x[2]))
         vals = [[(k + 1) * 10 + p for p in range(s)] for k, (n, s) in enumerate(genome)]
         cases = []
-        for op in (['pileup', 0], ['mask', 0], ['merged', 0, 1], ['merged', 0, 0]):
+        for op in (['pileup', 0], ['mask', 0], ['merged', 0, 1], ['merged', 0, 0], ['runs', rng.choice(VIEW_KINDS), 'get_data']):
             cases.append(dict(genome=orig, filter=filt, added=added, entries=bes, vals=None, op=op))
         ne = [x for x in bes if x[1] < x[2]]
         if ne:
@@ -400,6 +506,8 @@ def generate(tier, seed):
     for k in range(n_base // 4):
         cases += _scenario(rng, S, tier, bad=True)
     cases += _exhaustive_small(tier)
+    cases += _view_scenarios(random.Random(seed * 10007 + 1006), S, tier)
+    cases += _view_exhaustive(tier)
     cases.sort(key=lambda c: len(c['entries']) + len(c['genome']))
     return cases
 
@@ -488,6 +596,41 @@ def observe(case):
             return arrays_res(geo.get_pileup(intervals(False)) if geo else g.get_intervals(intervals(False)).get_pileup())
         if kind == 'mask':
             return arrays_res(geo.get_mask(intervals(False)) if geo else g.get_intervals(intervals(False)).get_mask())
+        if kind in ('runs', 'under'):
+            from bionumpy.genomic_data.genomic_track import GenomicArray
+            from bionumpy.genomic_data.genomic_intervals import GenomicIntervals
+            from bionumpy.arithmetics.intervals import GenomicRunLengthArray
+            from bionumpy.genomic_data.genomic_sequence import GenomicSequence
+            gi = g.get_intervals(intervals(False))
+            if kind == 'under':
+                mask = gi.get_mask()
+                if op[1]:
+                    mask = ~mask
+                if op[2]:
+                    gs = GenomicSequence.from_dict({n: bytes(case['vals'][i]).decode() for i, (n, s) in enumerate(genome)})
+                    r = gs[mask]
+                    return dict(t='rows', l=[list(r.to_string().encode())])
+                flat = np.array([v for i in inc for v in case['vals'][i]], dtype=int)
+                ga = GenomicArray.from_global_data(GenomicRunLengthArray.from_array(flat), g.get_genome_context())
+                r = ga[mask]
+                return dict(t='rows', l=[[int(x) for x in np.asarray(r.to_array() if hasattr(r, 'to_array') else r).tolist()]])
+            track = gi.get_pileup() if op[1] == 'pileup' else gi.get_mask() if op[1] == 'mask' else ~gi.get_mask()
+            if op[2] == 'get_data':
+                data = track.get_data()
+            elif op[2] == 'from_track':
+                data = GenomicIntervals.from_track(track).get_data()
+            else:
+                data = GenomicArray.from_bedgraph(track.get_data(), g.get_genome_context()).get_data()
+            ch = [inc.index(k) for k in chroms(data.chromosome)]       # rank among the included chromosomes
+            value = [int(v) for v in data.value] if op[1] == 'pileup' else [1] * len(ch)
+            rows = []
+            for r in zip(ch, [int(x) for x in data.start], [int(x) for x in data.stop], value):
+                # a run-length array may hold one run of equal values as touching pieces: join those (same chromosome only)
+                if rows and rows[-1][0] == r[0] and rows[-1][2] == r[1] and rows[-1][3] == r[3] and r[1] < r[2]:
+                    rows[-1][2] = r[2]
+                else:
+                    rows.append(list(r))
+            return dict(t='rows', l=rows)
         if kind == 'merged':
             d = op[2]
             if geo:
@@ -625,6 +768,10 @@ def _op_term(op):
         return '(OExtract %s)' % cbool(op[1])
     if k == 'seq':
         return '(OSeq %s)' % cbool(op[1])
+    if k == 'runs':
+        return '(ORuns %s)' % {'pileup': 'TPileup', 'mask': 'TMask', 'notmask': 'TNotMask'}[op[1]]
+    if k == 'under':
+        return '(OUnder %s %s)' % (cbool(op[1]), cbool(op[2]))
     raise ValueError(op)
 
 
@@ -680,11 +827,31 @@ def describe(case, o):
                 observed={k: v for k, v in o.items() if k != 'msg'})
 
 
+def _spans_inner(c, inc, g):
+    """some constant run of the concatenated pileup / mask covers a whole chromosome that is neither first nor last and
+    continues on both sides"""
+    dense = []
+    for i in inc:
+        a = [0] * g[i][1]
+        for e in c['entries']:
+            if e[0] == i:
+                for p in range(max(0, e[1]), min(g[i][1], e[2])):
+                    a[p] += 1
+        if c['op'][0] == 'under' or c['op'][1] != 'pileup':
+            a = [int(x > 0) for x in a]
+        dense.append(a)
+    for j in range(1, len(dense) - 1):
+        if dense[j] and len(set(dense[j])) == 1 and dense[j - 1] and dense[j + 1] \
+                and dense[j - 1][-1] == dense[j][0] == dense[j + 1][0]:
+            return True
+    return False
+
+
 def distribution(cases, obs):
     d = dict(ops={}, chromosomes={}, filters={}, errors={}, entries={}, boundary_pairs=0, empty_chromosome=0,
              ignored_in_genome=0)
     for c, o in zip(cases, obs):
-        k = c['op'][0] + ('/geo' if len(c['op']) > 1 and c['op'][1] == 1 and c['op'][0] not in ('location', 'extract', 'seq', 'prog') else '')
+        k = c['op'][0] + ('/geo' if len(c['op']) > 1 and c['op'][1] == 1 and c['op'][0] not in ('location', 'extract', 'seq', 'prog', 'under') else '')
         d['ops'][k] = d['ops'].get(k, 0) + 1
         n = str(len(c['genome']))
         d['chromosomes'][n] = d['chromosomes'].get(n, 0) + 1
@@ -694,6 +861,12 @@ def distribution(cases, obs):
         if isinstance(o, dict) and o.get('t') == 'err':
             d['errors'][o.get('exc', '?')] = d['errors'].get(o.get('exc', '?'), 0) + 1
         g = _g(c)
+        if c['op'][0] in ('runs', 'under'):
+            d.setdefault('view_run_spans_whole_inner_chromosome', 0)
+            d.setdefault('view_included_chromosomes', {})
+            inc_ = _included(c['genome'], c['filter'], c.get('added') or [])
+            d['view_included_chromosomes'][str(len(inc_))] = d['view_included_chromosomes'].get(str(len(inc_)), 0) + 1
+            d['view_run_spans_whole_inner_chromosome'] += _spans_inner(c, inc_, g)
         d.setdefault('with_ignored_added_steps', {})
         k2 = str(len(c.get('added') or []))
         d['with_ignored_added_steps'][k2] = d['with_ignored_added_steps'].get(k2, 0) + 1
